@@ -6,6 +6,7 @@ func main() {
 	Main(map[string]CmdFn{
 		"gen": func(a []string) int { return RunGen(gens, a) },
 		"c04": c04,
+		"c17": c17,
 	})
 }
 
